@@ -213,77 +213,27 @@ def run(fx, chk, tier):
         ok = nt is not None and "IterMut" in (nt["callee"].get("full") or "") and "Mp4TrackWriter" in (nt["callee"].get("full") or "")
     chk.require(ok, "R2", "write_end|all-tracks", "track write_end called in the loop over the track writers, before moov.write_box",
                 "Mp4Writer::write_end does not flush every track writer before producing the movie box", site_of(we))
-    tb = body_of(twe)
-    first_eff = None
-    for b in tb.rpo():
-        t = tb.term(b)
-        if t["k"] == "call":
-            p = callee_path(t["callee"]) or ""
-            if p in iof or t["callee"].get("trait") in IO_TRAITS:
-                first_eff = p
-                break
-    chk.require(wc is not None and first_eff == wc["id"], "R2", "track-write_end|flush-first", "first stream effect is the chunk flush",
-                "Mp4TrackWriter::write_end does not start by flushing the pending chunk (first stream effect: %s)" % first_eff, site_of(twe))
-    if wc:
-        cb = body_of(wc)
-        pos = [b for b, t in cb.calls() if (t["callee"].get("path") or "").endswith("Seek::stream_position")]
-        wall = [b for b, t in cb.calls() if (t["callee"].get("path") or "").endswith("Write::write_all")]
-        ok = len(pos) == 1 and len(wall) == 1 and cb.dominates(pos[0], wall[0])
-        if ok:
-            fwd = cb.reachable_from(cb.term(pos[0])["t"], avoid=[wall[0]])
-            between = {x for x in fwd if cb.can_reach(x, wall[0])}
-            ok = not any(cb.term(x)["k"] == "call" and (cb.term(x)["callee"].get("trait") in IO_TRAITS or (callee_path(cb.term(x)["callee"]) or "") in iof) for x in between)
-        chk.require(ok, "R2", "flush|offset", "offset = stream_position() immediately before write_all", "the chunk offset is not the stream position taken immediately before the chunk is written", site_of(wc))
-        # reset after the write: clear() and counter stores are dominated by the write_all's success edge
-        resets = [b for b, t in cb.calls() if (t["callee"].get("path") or "").endswith("::clear")]
-        stores = []
-        for b in cb.reach:
-            for s in cb.stmts(b):
-                if s["k"] == "assign" and s["place"]["l"] == 1 and s["place"]["p"] and isinstance(s["place"]["p"][-1], dict) and s["place"]["p"][-1].get("f") in ("chunk_samples", "chunk_duration"):
-                    stores.append(b)
-        ok = bool(wall) and bool(resets) and all(cb.dominates(wall[0], r) and r != wall[0] for r in resets + stores)
-        chk.require(ok, "R2", "flush|reset-after-write", "buffer and counters reset only after write_all succeeded", "the pending chunk is reset before (or without) the write succeeding", site_of(wc))
-        # bookkeeping of the flushed chunk: update_sample_to_chunk and update_chunk_offsets both after the write
-        upd = [b for b, t in cb.calls() if (callee_path(t["callee"]) or "").endswith(("::update_sample_to_chunk", "::update_chunk_offsets"))]
-        chk.require(len(upd) == 2 and all(cb.dominates(wall[0], u) for u in upd), "R2", "flush|tables", "stsc and co64 updated once per flushed chunk, after the write",
-                    "the flush does not record the chunk in both stsc and co64 after writing it", site_of(wc))
-
-        # R2c: a success return of the flush that skips the table updates must have nothing pending: the abstract
-        # interpreter proves the pending-sample counter is 0 there
-        from absint import Interp
-        it = Interp(fx, cb).run()
-        oks = LP.ok_blocks(cb)
-        skipping = [o for o in oks if not any(cb.dominates(u, o) for u in upd)]
-        counter_field = None
-        # the pending-sample counter = the field of self that write_sample increments and the flush resets to 0
-        reset_fields = set()
-        for b in cb.reach:
-            for s_ in cb.stmts(b):
-                if s_["k"] == "assign" and s_["place"]["l"] == 1 and s_["place"]["p"] and isinstance(s_["place"]["p"][-1], dict) and s_["rv"]["k"] == "use":
-                    from mir import op_const
-                    if op_const(s_["rv"]["a"]) == 0:
-                        reset_fields.add(s_["place"]["p"][-1]["f"])
-        inc_fields = set()
-        for b in body.reach:
-            for s_ in body.stmts(b):
-                if s_["k"] == "assign" and s_["place"]["l"] == 1 and s_["place"]["p"] and isinstance(s_["place"]["p"][-1], dict) and s_["place"]["ty"] == "u32":
-                    if "Add(" in body.rv_str(s_["rv"]) and ", 1)" in body.rv_str(s_["rv"]):
-                        inc_fields.add(s_["place"]["p"][-1]["f"])
-        cand = sorted(reset_fields & inc_fields)
-        okc = bool(cand) and bool(upd)
-        why = ""
-        if okc:
-            counter_field = cand[0]
-            for o in skipping:
-                st = it.in_states.get(o)
-                key = (1, "deref", "." + counter_field)
-                sid = st.cells.get(key) if st is not None else None
-                iv = it.iv(st, sid) if sid is not None else (None, None)
-                if iv != (0, 0):
-                    okc = False
-                    why = "a success return skips the stsc/co64 update while %s may be non-zero (interval %s)" % (counter_field, iv)
-        chk.require(okc, "R2", "flush|skip-only-when-empty", "the flush skips its bookkeeping only when the pending-sample counter (%s) is 0" % counter_field,
-                    "the chunk flush can return Ok without recording the chunk although samples are pending: %s" % (why or "counter not identified"), site_of(wc))
+    # R2 (b)-(f): stated over effect traces of the track writer's entry points (muxrules M1-M4): independent of how the
+    # flush is split into private helpers
+    import muxrules
+    M = getattr(chk, "_mux", None) or muxrules.Mux(fx)
+    chk._mux = M
+    M.discover()
+    chk.require(M.buf is not None and M.flush_fn is not None, "R2", "flush|found", "pending-chunk buffer `%s`, flushed in %s" % (M.buf, fn_short(M.flush_fn) if M.flush_fn else None),
+                "the pending-chunk buffer / its flush could not be identified from the effects of Mp4TrackWriter::write_sample and write_end", site_of(twe))
+    res = []
+    nfl = M.m1(M.tw_end, res) + M.m1(M.tw_sample, res)
+    M.io_shape(M.tw_end, res, "flush-first")
+    M.m2b(res)
+    M.m3(res)
+    M.m4(M.tw_sample, res)
+    seen_ = set()
+    for ok_, key_, how_, fn_, line_ in res:
+        if (ok_, key_) in seen_:
+            continue
+        seen_.add((ok_, key_))
+        chk.require(ok_, "R2", key_, how_, how_, site_of(fn_, line_))
+    chk.floor("R2", "flush instances on success paths", nfl, 4)
 
     # ---------------- R3
     b3 = body_of(ww)
